@@ -621,6 +621,10 @@ func (fx *FnCtx) havocForLoop(st *State, body ast.Node, extra []ast.Node, ord in
 		w.calls = append(w.calls, w2.calls...)
 	}
 	for o := range w.vars {
+		if h, ok := fx.cells[o]; ok {
+			fx.havocHeap(st, h, fx.sc.SortOf(o.Type()))
+			continue
+		}
 		if old, ok := st.vars[o]; ok {
 			c := fx.sc.Fresh(o.Name(), old.S)
 			nv := Val{c, old.S, old.Ty}
@@ -906,9 +910,10 @@ func (fx *FnCtx) execRangeMap(st *State, x *ast.RangeStmt, m Val, mt *types.Map)
 	setSort := "(Array " + ks + " Bool)"
 	// domain at loop entry
 	d0 := fx.sc.Fresh("dom0", setSort)
-	st.facts = append(st.facts, "(= "+d0+" (select "+fx.heapArr(st.heap, dom, hds)+" "+m.T+"))")
-	visName := fmt.Sprintf("visited%d", ord)
 	empty := "((as const " + setSort + ") false)"
+	// ranging over a nil map performs no iteration (Go): its domain is empty
+	st.facts = append(st.facts, "(= "+d0+" (ite (= "+m.T+" 0) "+empty+" (select "+fx.heapArr(st.heap, dom, hds)+" "+m.T+")))")
+	visName := fmt.Sprintf("visited%d", ord)
 	st.named[visName] = Val{empty, setSort, nil}
 	st.named["visited"] = st.named[visName]
 	st.named[fmt.Sprintf("dom%d", ord)] = Val{d0, setSort, nil}
